@@ -180,4 +180,121 @@ theorem after_refresh_flags_exact (s : State) :
   have := refresh_fold s (poolSorted s) ([], [])
   simpa using this
 
+/-! ### the pool holds each transaction at most once — after EVERY history -/
+
+def PoolNodup (s : State) : Prop := (s.pool.map (·.txn.hash)).Nodup
+
+theorem nodup_map_filter {l : List PoolEntry} (p : PoolEntry → Bool) (h : (l.map (·.txn.hash)).Nodup) :
+    ((l.filter p).map (·.txn.hash)).Nodup := by
+  induction l with
+  | nil => simp
+  | cons a l ih =>
+    simp only [List.map_cons, List.nodup_cons] at h
+    simp only [List.filter_cons]
+    split
+    · simp only [List.map_cons, List.nodup_cons]
+      refine ⟨?_, ih h.2⟩
+      intro hm
+      apply h.1
+      simp only [List.mem_map] at hm ⊢
+      obtain ⟨x, hx, hxe⟩ := hm
+      exact ⟨x, (List.mem_filter.mp hx).1, hxe⟩
+    · exact ih h.2
+
+theorem insPool_hashes_nodup {e : PoolEntry} {l : List PoolEntry}
+    (hn : (l.map (·.txn.hash)).Nodup) (he : e.txn.hash ∉ l.map (·.txn.hash)) :
+    ((insPool e l).map (·.txn.hash)).Nodup := by
+  induction l with
+  | nil => simp [insPool]
+  | cons y ys ih =>
+    simp only [insPool]
+    simp only [List.map_cons, List.nodup_cons, List.mem_cons, not_or] at hn he
+    split
+    · simp only [List.map_cons, List.nodup_cons, List.mem_cons, not_or]
+      exact ⟨⟨he.1, he.2⟩, hn.1, hn.2⟩
+    · simp only [List.map_cons, List.nodup_cons]
+      refine ⟨?_, ih hn.2 he.2⟩
+      intro hm
+      simp only [List.mem_map] at hm
+      obtain ⟨x, hx, hxe⟩ := hm
+      rcases mem_insPool.mp hx with rfl | hx'
+      · exact he.1 hxe
+      · exact hn.1 (List.mem_map.mpr ⟨x, hx', hxe⟩)
+
+theorem mem_foldr_insPool {l : List PoolEntry} {x : PoolEntry} : x ∈ l.foldr insPool [] ↔ x ∈ l := by
+  induction l with
+  | nil => simp
+  | cons a l ih => simp only [List.foldr_cons, mem_insPool, ih, List.mem_cons]
+
+theorem foldr_insPool_nodup (l : List PoolEntry) (h : (l.map (·.txn.hash)).Nodup) :
+    ((l.foldr insPool []).map (·.txn.hash)).Nodup := by
+  induction l with
+  | nil => simp
+  | cons a l ih =>
+    simp only [List.map_cons, List.nodup_cons] at h
+    simp only [List.foldr_cons]
+    apply insPool_hashes_nodup (ih h.2)
+    intro hm
+    apply h.1
+    simp only [List.mem_map] at hm ⊢
+    obtain ⟨x, hx, hxe⟩ := hm
+    exact ⟨x, mem_foldr_insPool.mp hx, hxe⟩
+
+theorem poolSorted_nodup {s : State} (h : PoolNodup s) : ((poolSorted s).map (·.txn.hash)).Nodup :=
+  foldr_insPool_nodup s.pool h
+
+/-- after ANY history of blocks, injections, refreshes, invalid-removals and restarts the pool holds
+every transaction hash at most once -/
+theorem pool_nodup_after_run (s : State) (ops : List Op) (h0 : PoolNodup s) : PoolNodup (run s ops) := by
+  induction ops generalizing s with
+  | nil => exact h0
+  | cons op ops ih =>
+    simp only [run, List.foldl_cons]
+    apply ih
+    cases op with
+    | exec b =>
+      simp only [applyOp]
+      split
+      · rename_i s' he
+        unfold PoolNodup
+        rw [block_keeps_other_txns he]
+        exact nodup_map_filter _ h0
+      · exact h0
+    | injectF t =>
+      simp only [applyOp]
+      split
+      · rename_i k e s' hi
+        exact pool_hashes_nodup_inject h0 hi
+      · exact h0
+    | injectU t =>
+      simp only [applyOp]
+      split
+      · rename_i k s' hi
+        unfold injectUser at hi
+        simp only [bind, Except.bind] at hi
+        split at hi
+        · cases hi
+        · split at hi
+          · cases hi
+          · split at hi
+            · cases hi
+            · rename_i v hv
+              obtain ⟨k', e', s''⟩ := v
+              cases hi
+              exact pool_hashes_nodup_inject h0 hv
+      · exact h0
+    | refresh =>
+      simp only [applyOp]
+      unfold PoolNodup
+      rw [after_refresh_flags_exact, List.map_map]
+      have : ((fun x => x.txn.hash) ∘ recheck s) = (fun x => x.txn.hash) := by funext x; rfl
+      rw [this]
+      exact poolSorted_nodup h0
+    | removeInvalid =>
+      simp only [applyOp, removeInvalid]
+      exact nodup_map_filter _ h0
+    | restart =>
+      simp only [applyOp, restart, removeInvalid]
+      exact nodup_map_filter _ h0
+
 end Sky.Props.C06
